@@ -8,6 +8,78 @@ import z3
 QUICK_MS = int(os.environ.get('PYVC_TIMEOUT_MS', '10000'))
 
 
+
+
+class SeqAbstraction:
+    """Over-approximate formulas over sequences by pure integer/boolean ones: |t| becomes an integer unknown >= 0 (after
+    z3's own rewriting of lengths of concatenations), every other atom that mentions a sequence becomes a boolean unknown
+    (the same unknown for the same atom).  unsat of the abstraction implies unsat of the original."""
+    def __init__(self):
+        self.cache, self.side = {}, []
+
+    def is_seq(self, t):
+        return z3.is_seq(t) or z3.is_string(t)
+
+    def mentions_seq(self, t):
+        key = ('m', t.get_id())
+        if key in self.cache:
+            return self.cache[key]
+        r = self.is_seq(t) or any(self.mentions_seq(c) for c in t.children())
+        self.cache[key] = r
+        return r
+
+    def tr(self, t):
+        key = t.get_id()
+        if key in self.cache:
+            return self.cache[key]
+        r = self._tr(t)
+        self.cache[key] = r
+        return r
+
+    def _tr(self, t):
+        if not z3.is_app(t) or not self.mentions_seq(t):
+            return t
+        k = t.decl().kind()
+        if k == z3.Z3_OP_SEQ_LENGTH:
+            v = z3.Int(f'len!{t.get_id()}')
+            self.side.append(v >= 0)
+            return v
+        srt = t.sort()
+        if any(self.is_seq(c) for c in t.children()) or self.is_seq(t):
+            # an application over sequence arguments: opaque value of its sort
+            if z3.is_bool(t):
+                return z3.Bool(f'atom!{t.get_id()}')
+            if z3.is_int(t):
+                return z3.Int(f'term!{t.get_id()}')
+            if self.is_seq(t):
+                return t     # only reachable inside other seq terms that were cut above
+            return z3.Const(f'term!{t.get_id()}', srt)
+        ch = [self.tr(c) for c in t.children()]
+        try:
+            return t.decl()(*ch)
+        except z3.Z3Exception:
+            if z3.is_bool(t):
+                return z3.Bool(f'atom!{t.get_id()}')
+            return z3.Const(f'term!{t.get_id()}', srt)
+
+    def formulas(self, fs):
+        out = [self.tr(z3.simplify(f)) for f in fs]
+        return out + self.side
+
+
+def abstract_check(formulas, timeout_ms=2000):
+    """check the sequence-free over-approximation; returns 'unsat' (then the original is unsat) or 'maybe'"""
+    try:
+        a = SeqAbstraction()
+        fs = a.formulas(formulas)
+        s = z3.Solver()
+        s.set('timeout', timeout_ms)
+        s.add(*fs)
+        return 'unsat' if s.check() == z3.unsat else 'maybe'
+    except z3.Z3Exception:
+        return 'maybe'
+
+
 def to_smt2(hyps, goal):
     s = z3.Solver()
     s.add(*hyps)
@@ -42,27 +114,82 @@ def z3old_check(text, timeout_s):
     return run_cli(['/usr/bin/z3', '-smt2', f'-T:{int(timeout_s)}'], text, timeout_s)
 
 
-def discharge(ob, timeout_ms=None, portfolio='fallback', want_model=True):
-    """returns dict(status = discharged|refuted|unknown, solver, seconds, model(z3 ModelRef or None), by={solver: result})"""
+def isolated_check(formulas, timeout_s, on_model=None, mem_mb=None):
+    """run z3 (python API) on the formulas in a forked child with a hard time and address-space limit.
+    Returns (result string, payload from on_model or None).  A child that dies or times out yields 'unknown'."""
+    import json
+    import resource
+    import select
+    import signal
+    mem_mb = mem_mb or int(os.environ.get('PYVC_Z3_MEM_MB', '4000'))
+    r, w = os.pipe()
+    pid = os.fork()
+    if pid == 0:
+        code = 0
+        try:
+            os.close(r)
+            lim = mem_mb * 1024 * 1024
+            resource.setrlimit(resource.RLIMIT_AS, (lim, lim))
+            s = z3.Solver()
+            s.set('timeout', int(timeout_s * 1000))
+            s.add(*formulas)
+            res = str(s.check())
+            payload = None
+            if res == 'sat' and on_model is not None:
+                try:
+                    payload = on_model(s.model())
+                except BaseException as e:      # noqa
+                    payload = {'error': repr(e)}
+            os.write(w, json.dumps({'res': res, 'payload': payload}).encode())
+        except BaseException:                   # noqa
+            code = 1
+        finally:
+            os._exit(code)
+    os.close(w)
+    buf = b''
+    deadline = time.time() + timeout_s + 2.0
+    try:
+        while True:
+            left = deadline - time.time()
+            if left <= 0:
+                break
+            rl, _, _ = select.select([r], [], [], left)
+            if not rl:
+                break
+            chunk = os.read(r, 1 << 16)
+            if not chunk:
+                break
+            buf += chunk
+    finally:
+        os.close(r)
+        try:
+            os.kill(pid, signal.SIGKILL)
+        except ProcessLookupError:
+            pass
+        os.waitpid(pid, 0)
+    if not buf:
+        return 'unknown', None
+    try:
+        d = json.loads(buf.decode())
+        return d['res'], d['payload']
+    except ValueError:
+        return 'unknown', None
+
+
+def discharge(ob, timeout_ms=None, portfolio='fallback', on_model=None):
+    """returns dict(status = discharged|refuted|unknown|disagree, solver, seconds, model_payload, by={solver: result})"""
     timeout_ms = timeout_ms or QUICK_MS
     g = z3.simplify(ob.goal)
     by = {}
     t0 = time.time()
     if z3.is_true(g):
         return dict(status='discharged', solver='simplifier', seconds=0.0, model=None, by={'simplifier': 'unsat'})
-    s = z3.Solver()
-    s.set('timeout', timeout_ms)
-    s.add(*ob.hyps)
-    s.add(z3.Not(ob.goal))
-    r = s.check()
-    by['z3-5.1'] = str(r)
-    model = None
-    if r == z3.sat and want_model:
-        try:
-            model = s.model()
-        except z3.Z3Exception:
-            model = None
-    status = {'unsat': 'discharged', 'sat': 'refuted'}.get(str(r), 'unknown')
+    fs = list(ob.hyps) + [z3.Not(ob.goal)]
+    if abstract_check(fs) == 'unsat':
+        return dict(status='discharged', solver='z3-5.1(seq-free abstraction)', seconds=time.time() - t0, model=None, by={'z3-5.1': 'unsat'})
+    r, payload = isolated_check(fs, timeout_ms / 1000.0, on_model)
+    by['z3-5.1'] = r
+    status = {'unsat': 'discharged', 'sat': 'refuted'}.get(r, 'unknown')
     solver = 'z3-5.1'
     if status == 'unknown' or portfolio == 'all':
         text = to_smt2(ob.hyps, ob.goal)
@@ -77,11 +204,13 @@ def discharge(ob, timeout_ms=None, portfolio='fallback', want_model=True):
                     status, solver = st2, nm
                 elif status != st2:
                     status = 'disagree'
-    return dict(status=status, solver=solver, seconds=time.time() - t0, model=model, by=by)
+    return dict(status=status, solver=solver, seconds=time.time() - t0, model=payload, by=by)
 
 
 def hyps_consistent(ob, timeout_ms=1500):
-    s = z3.Solver()
-    s.set('timeout', timeout_ms)
-    s.add(*ob.hyps)
-    return str(s.check())
+    """vacuity probe: 'unsat' only when the sequence-free over-approximation of the hypotheses is already contradictory,
+    or the isolated full check says so"""
+    if abstract_check(list(ob.hyps), timeout_ms) == 'unsat':
+        return 'unsat'
+    r, _ = isolated_check(list(ob.hyps), timeout_ms / 1000.0)
+    return r
